@@ -48,6 +48,17 @@ def early_internal(rule):
     return False
 
 
+def repeated_attachment(rule):
+    """trigger of the open finding D8e in J_precompute_products: an edge attached twice to one node (t(v, v)); the block for that
+    edge is built over the de-duplicated nodes and expanded back, so off-diagonal entries get the diagonal's derivative"""
+    return any(len(set(att)) < len(att) for _, _, att in rule['edges'])
+
+
+def jpp_tags(shape):
+    return (['jpp-internal-node-outside-some-step'] if any(early_internal(r) for r in shape['rules']) else []) + \
+           (['jpp-edge-attached-twice'] if any(repeated_attachment(r) for r in shape['rules']) else [])
+
+
 def stream(ctx, shape, name, which, case):
     """compare J (which='J') or J_precompute_products (which='JPP') with Pipe.jac on one grammar shape"""
     sh = dict(shape, weights=shape['vweights']) if name == 'viterbi' else shape
@@ -61,7 +72,7 @@ def stream(ctx, shape, name, which, case):
     inputs = {t: fgg.factors[t.name].weights for t in fgg.terminals()}
     fn = J if which == 'J' else J_precompute_products
     cfg = dict(semiring=name, function=fn.__name__, x=[None if v is None else [str(c) for c in v] for v in vals])
-    tags_shape = ['jpp-internal-node-outside-some-step'] if any(early_internal(r) for r in shape['rules']) else []
+    tags_shape = jpp_tags(shape)
     ctx.evaluations += 1
     try:
         with torch.no_grad():
